@@ -302,6 +302,12 @@ def build(chk):
                 wside, untouched = snapshot_writes(chk, frag, cls, implicit, islinear)
                 T.cur().notes.append("%s: a snapshot sub-step writes %s on the trajectory solver" % (nm, wside))
                 prove("observer-independence/snapshot-leaves-the-trajectory-state", untouched, replay=rp)
+                # restart equivalence: solve(N+M) and solve(N);restart(M) differ in the per-call bookkeeping
+                # (_nit, _itstart, _cputime): a step whose result depends on it breaks the equivalence
+                for a in ("_nit", "_itstart", "_cputime"):
+                    prove("restart-equivalence/step-does-not-depend-on-%s" % a, a not in R,
+                          replay=dict(rp, args=dict(rp["args"], clause="restart")),
+                          note="per-call bookkeeping differs between one solve and solve+restart")
                 if not carried:
                     prove("state-independence/step-carries-no-solver-state", True)
                 for a in carried:
